@@ -21,6 +21,7 @@ from aioquic.quic.connection import QuicConnection
 LATENCY = 0.010
 C_ADDR = ("10.0.0.1", 1111)
 C_ADDR2 = ("10.0.0.9", 9999)
+C_ADDR3 = ("10.0.0.77", 7777)   # a second rebinding (deviation budget permitting) lands here
 S_ADDR = ("10.0.0.2", 4433)
 V1 = refquic.V1
 V2 = refquic.V2
@@ -770,7 +771,7 @@ class NetSim:
                     if "delay" in self.dev:
                         menu.append(("delay", first, 0.030))
                         menu.append(("delay", first, 1.5))
-                    if "rebind" in self.dev and first.src == "c" and self.client_addr == C_ADDR:
+                    if "rebind" in self.dev and first.src == "c" and self.client_addr in (C_ADDR, C_ADDR2):
                         menu.append(("rebind", first))
                     if "spoof" in self.dev and first.src == "c" and first.kind == "genuine":
                         menu.append(("spoof", first))
@@ -822,11 +823,12 @@ class NetSim:
                 self.deliver(c2, src_addr=C_ADDR2)
             elif k == "rebind":
                 self.inflight.remove(ev[1])
-                self.client_addr = C_ADDR2
+                new_addr = C_ADDR2 if self.client_addr == C_ADDR else C_ADDR3
+                self.client_addr = new_addr
                 for d in self.inflight:
                     if d.src == "c":
-                        d.src_addr = C_ADDR2
-                self.deliver(ev[1], src_addr=C_ADDR2)
+                        d.src_addr = new_addr
+                self.deliver(ev[1], src_addr=new_addr)
             elif k == "timer":
                 self.fire_timer(self.ep[ev[1]], ev[2])
             elif k == "late":
